@@ -213,6 +213,8 @@ struct Plan {
     schema_changes: bool,
     id_change: bool,
     restarts: bool,
+    /// All executions go through a CachingSession (its own cached statement handles).
+    caching: bool,
 }
 
 pub fn run(req: &RunRequest) -> Value {
@@ -227,6 +229,7 @@ pub fn run(req: &RunRequest) -> Value {
             schema_changes: tape::chance("c14:schema_changes", 1, 2),
             id_change: tape::chance("c14:id_change", 1, 6),
             restarts: tape::chance("c14:restarts", 1, 3),
+            caching: tape::chance("c14:caching", 1, 4),
         };
         let mut cluster = Cluster::new("c14");
         for i in 0..plan.nodes {
@@ -291,6 +294,29 @@ async fn main(plan: Plan) -> Outcome {
         return out;
     };
     let upd = Arc::new(upd);
+    // In caching runs every execution goes through a CachingSession whose cache is
+    // warmed here (its preparations are the callers' own, before the workload starts).
+    let caching: Option<Arc<scylla::client::caching_session::CachingSession>> = if plan.caching {
+        let cs = scylla::client::caching_session::CachingSessionBuilder::new_shared(session.clone())
+            .max_capacity(16)
+            .use_cached_result_metadata(plan.use_cached)
+            .build();
+        for t in [SEL, INS, UPD] {
+            if cs.add_prepared_statement(&scylla::statement::Statement::new(t)).await.is_err() {
+                out.inconclusive = Some("caching prepare failed".into());
+                return out;
+            }
+        }
+        out.count("caching_session_runs", 1);
+        Some(Arc::new(cs))
+    } else {
+        None
+    };
+    let idem = |t: &str| {
+        let mut st = scylla::statement::Statement::new(t);
+        st.set_is_idempotent(true);
+        st
+    };
     {
         let mut w = world::world();
         let mut s = w.script.take().unwrap();
@@ -397,6 +423,7 @@ async fn main(plan: Plan) -> Outcome {
         let sel = sel.clone();
         let ins = ins.clone();
         let upd = upd.clone();
+        let caching = caching.clone();
         let per = plan.per_caller;
         let gaps: Vec<u64> = (0..per).map(|_| tape::range("c14:gap", 0, 60) * MS).collect();
         let kinds: Vec<u8> = (0..per).map(|_| tape::weighted("c14:kind", &[5, 2, 2, 2]) as u8).collect();
@@ -420,18 +447,38 @@ async fn main(plan: Plan) -> Outcome {
                     }
                     Ok(rows)
                 };
-                let result = match kind {
-                    0 => session
+                let result = match (kind, &caching) {
+                    (0, Some(cs)) => cs
+                        .execute_unpaged(idem(SEL), (k as i64, m as i64))
+                        .await
+                        .map_err(|e| client::short_err(&e))
+                        .and_then(decode),
+                    (1, Some(cs)) => cs
+                        .execute_unpaged(idem(INS), (k as i64, m as i64))
+                        .await
+                        .map_err(|e| client::short_err(&e))
+                        .and_then(decode),
+                    (2, Some(cs)) => {
+                        let mut b = Batch::default();
+                        b.append_statement(idem(INS));
+                        b.append_statement(idem(UPD));
+                        b.set_is_idempotent(true);
+                        cs.batch(&b, ((1i64, m as i64), (2i64, m as i64)))
+                            .await
+                            .map_err(|e| client::short_err(&e))
+                            .and_then(decode)
+                    }
+                    (0, None) => session
                         .execute_unpaged(&sel, (k as i64, m as i64))
                         .await
                         .map_err(|e| client::short_err(&e))
                         .and_then(decode),
-                    1 => session
+                    (1, None) => session
                         .execute_unpaged(&ins, (k as i64, m as i64))
                         .await
                         .map_err(|e| client::short_err(&e))
                         .and_then(decode),
-                    2 => {
+                    (2, None) => {
                         let mut b = Batch::default();
                         b.append_statement((*ins).clone());
                         b.append_statement((*upd).clone());
@@ -442,9 +489,13 @@ async fn main(plan: Plan) -> Outcome {
                             .map_err(|e| client::short_err(&e))
                             .and_then(decode)
                     }
-                    _ => {
+                    (_, cs) => {
                         use futures::StreamExt;
-                        match session.execute_iter((*sel).clone(), (k as i64, m as i64)).await {
+                        let pager = match cs {
+                            Some(cs) => cs.execute_iter(idem(SEL), (k as i64, m as i64)).await,
+                            None => session.execute_iter((*sel).clone(), (k as i64, m as i64)).await,
+                        };
+                        match pager {
                             Err(e) => Err(format!("{e}").chars().take(120).collect()),
                             Ok(pager) => match pager.rows_stream::<Row>() {
                                 Err(e) => Err(e.to_string()),
@@ -499,7 +550,11 @@ async fn main(plan: Plan) -> Outcome {
     let mut final_ok = false;
     if !id_changed {
         for _ in 0..3 {
-            if session.execute_unpaged(&sel, (0i64, mq as i64)).await.is_ok() {
+            let r = match &caching {
+                Some(cs) => cs.execute_unpaged(idem(SEL), (0i64, mq as i64)).await,
+                None => session.execute_unpaged(&sel, (0i64, mq as i64)).await,
+            };
+            if r.is_ok() {
                 final_ok = true;
             }
             world::sleep_ns(100 * MS).await;
